@@ -410,7 +410,7 @@ class Family:
         rng = self.rng
         argty = self.argty[t]
         guard = None
-        if rng.random() < 0.45:
+        if rng.random() < 0.3:
             cands = [("proj", p) for p in projs_of(argty, "N")] + [("read", p) for p in projs_of(argty, "F")] * 2
             if cands:
                 guard = (rng.choice(cands), rng.randrange(4), rng.randrange(1, 4))
